@@ -84,6 +84,10 @@ class Instance:
 
         self.fs = FakeSnow()
         self.conns = [self.fs.connect(database="db1", schema="s1"), self.fs.connect(database="DB1", schema="S2"), self.fs.connect()]
+        # a session that named a database which does not exist (yet) and could not create it
+        self.fs.create_database_on_connect = False
+        self.conns.append(self.fs.connect(database="db2"))
+        self.fs.create_database_on_connect = True
         self.admin = self.fs.duck_conn.cursor()
 
     def ctx(self, c):
@@ -121,7 +125,7 @@ def dec_cat(x):
 
 def in_dom(inst, c, op):
     """Python mirror of CtxProofs.dom, evaluated on the implementation's actual contexts."""
-    ctxs = [inst.ctx(k) for k in range(3)]
+    ctxs = [inst.ctx(k) for k in range(4)]
     cdb, csch, dset, sset, edb, esch = ctxs[c]
     if op[0] == "usedb":
         return not csch and not sset
@@ -140,7 +144,7 @@ def run_history(rng, hist, texts=None, gen=0):
     inst = Instance()
     try:
         cat0 = inst.catalog()
-        world0 = [enc_cat(cat0), [inst.ctx(c) for c in range(3)]]
+        world0 = [enc_cat(cat0), [inst.ctx(c) for c in range(4)]]
         out, sqls = [], []
         i = -1
         while True:
@@ -149,7 +153,7 @@ def run_history(rng, hist, texts=None, gen=0):
                 if i >= gen:
                     break
                 for _ in range(50):
-                    c, op = rng.choice((0, 1, 2, 2)), gen_op(rng, inst.catalog())
+                    c, op = rng.choice((0, 1, 2, 2, 3)), gen_op(rng, inst.catalog())
                     if in_dom(inst, c, op):
                         break
                 else:
@@ -254,6 +258,10 @@ def oracle(hist, out):
         edb, esch = unstr(edb), unstr(esch)
         if res[0] == 8:
             return f"connection {c}: {op} raised engine exception {unstr(res[1])}"
+        if op[0] == "usedb" and res == [0] and (not dset or cdb != op[1]):
+            return f"connection {c}: USE DATABASE {op[1]} succeeded but conn.database={cdb}, database_set={bool(dset)}"
+        if op[0] == "useschema" and res == [0] and (not sset or csch != op[2]):
+            return f"connection {c}: USE SCHEMA {op[2]} succeeded but conn.schema={csch}, schema_set={bool(sset)}"
         if dset and cdb != edb:
             return f"connection {c} after {op}: conn.database={cdb} but CURRENT_DATABASE()={edb}"
         if sset and (not dset or csch != esch):
@@ -329,7 +337,8 @@ def main():
     # corpus: qualified USE SCHEMA (fix c952ca0), a session without database
     hists.insert(0, [(0, ("useschema", "DB1", "S2")), (2, ("useschema", "DB1", "S1")), (2, ("select", ["T"], 0)), (2, ("createtable", ["T"])), (2, ("select", ["T"], 0)),
                      (0, ("createdb", "DB2")), (0, ("createschema", "DB2", "S1")), (0, ("useschema", "DB2", "S1")), (0, ("current",)), (0, ("createtable", ["T"])),
-                     (1, ("select", ["DB2", "S1", "T"], 0)), (0, ("select", ["S1", "T"], 2)), (2, ("select", ["S1", "T"], 0))])
+                     (1, ("select", ["DB2", "S1", "T"], 0)), (0, ("select", ["S1", "T"], 2)), (2, ("select", ["S1", "T"], 0)),
+                     (3, ("select", ["S1", "T"], 0)), (3, ("usedb", "DB2")), (3, ("select", ["S1", "T"], 0)), (3, ("useschema", None, "S1")), (3, ("select", ["T"], 0))])
     cases, impl = [], []
     reported = False
     for hi, h in enumerate(hists):
@@ -373,7 +382,7 @@ def main():
     check_known(ck)
     ck.cov["distinct_nontrivial"] = len({core.show(c[2]) for c in cases})
     ck.cov["samples"].append({"history": [(c, s) for (c, _), s in zip(hists[1], impl[1][1])][:10], "results": [o[0] for o in impl[1][0]][:10]})
-    return ck.finish(rule="random multi-connection histories (3 connections: two with DB1.S1/DB1.S2, one without database; 3 databases x 3 schemas x 3 tables; "
+    return ck.finish(rule="random multi-connection histories (4 connections: DB1.S1, DB1.S2, one without database, one that named a database that did not exist; 3 databases x 3 schemas x 3 tables; "
                           "names rendered with random case/quoting; seven statement forms per table reference) kept inside the theorem's domain by a generator-side mirror of `dom`; "
                           "after EVERY statement the result, the reported context, the engine's current schema and the full catalog are compared; distinct by encoded history")
 
